@@ -379,4 +379,135 @@ example :
          | .error _ => false)
      | _, _, _ => false) = true := by decide
 
+/-! ### constructors over child treespecs against the structure of the tree -/
+
+
+/-- the treespec of a sub-tree, as `tree_structure` returns it -/
+def specOf (cfg : Cfg) (x : PyObj) : Spec :=
+  (shapeOf cfg (!cfg.insertionOrdered) x).spec cfg.noneIsLeaf cfg.ns
+
+/-- the same container with every child replaced by its treespec: the argument of
+`treespec_from_collection` / `treespec_tuple` / `treespec_dict` / … -/
+def collOf (cfg : Cfg) : PyObj → Coll
+  | .leaf _ _ => .leafObj
+  | .none => .none
+  | .tuple xs => .tuple (xs.map (specOf cfg))
+  | .list xs => .list (xs.map (specOf cfg))
+  | .dict kvs => .dict (kvs.map fun p => (p.1, specOf cfg p.2))
+  | .odict kvs => .odict (kvs.map fun p => (p.1, specOf cfg p.2))
+  | .ddict f kvs => .ddict f (kvs.map fun p => (p.1, specOf cfg p.2))
+  | .deque m xs => .deque m (xs.map (specOf cfg))
+  | .ntuple cls xs => .ntuple cls (xs.map (specOf cfg))
+  | .sseq cls xs => .sseq cls (xs.map (specOf cfg))
+  | .user cls md q xs => .user cls md q (xs.map (specOf cfg))
+
+/-- containers handled by the engine itself (no registered flatten function is consulted) -/
+def PyObj.plainNode (cfg : Cfg) : PyObj → Bool
+  | .tuple _ | .list _ | .dict _ | .odict _ | .ddict _ _ | .deque _ _ => true
+  | .ntuple cls _ => (cfg.reg.lookup cfg.ns 1 cls).isNone
+  | .sseq cls _ => (cfg.reg.lookup cfg.ns 2 cls).isNone
+  | _ => false
+
+theorem plain_shape (cfg : Cfg) (cs : List STree) (kind : Kind) (data : NodeData) (okeys : Option (List Key))
+    (hk : kind ≠ .leaf) :
+    (match verifyChildren cfg.noneIsLeaf cfg.ns false (cs.map fun (c : STree) => c.spec cfg.noneIsLeaf cfg.ns) with
+      | .error e => Except.error e
+      | .ok ns => Except.ok (assemble cfg.noneIsLeaf ns (cs.map fun (c : STree) => c.spec cfg.noneIsLeaf cfg.ns) kind data
+          Option.none Option.none okeys)) =
+      .ok ((STree.node (plainInfo kind data okeys) cs).spec cfg.noneIsLeaf (rebuiltNs cs cfg.ns)) := by
+  rw [verifyChildren_uniform cfg.noneIsLeaf cfg.ns cs]
+  simp only []
+  rw [assemble_enc _ _ cs _ _ kind _ _ _ _ hk]; rfl
+
+/-- **a constructor applied to the child treespecs is the structure of the tree**: for every container the
+engine handles itself — tuple, list, deque, dict, OrderedDict, defaultdict (the dict kinds with their keys sorted
+or in insertion order as the namespace's mode says), unregistered namedtuple and struct-sequence classes —
+`treespec_from_collection` over the same container holding the children's treespecs returns exactly the node
+array `tree_structure` returns for the tree (namespace: that of the children). -/
+theorem C08_constructor_is_structure (cfg : Cfg) (t : PyObj) (hpl : t.plainNode cfg = true) :
+    ∃ cs, (∃ i, shapeOf cfg (!cfg.insertionOrdered) t = .node i cs) ∧
+      makeFromCollection cfg (collOf cfg t) =
+        .ok ((shapeOf cfg (!cfg.insertionOrdered) t).spec cfg.noneIsLeaf (rebuiltNs cs cfg.ns)) := by
+  have hseq : ∀ xs : List PyObj, xs.map (specOf cfg) =
+      (shapeOfList cfg (!cfg.insertionOrdered) xs).map fun (c : STree) => c.spec cfg.noneIsLeaf cfg.ns := by
+    intro xs; rw [shapeOfList_eq, List.map_map]; rfl
+  have hkv : ∀ (od : Bool) (kvs : List (Key × PyObj)),
+      dictOrder od (!cfg.insertionOrdered) (kvs.map fun p => (p.1, specOf cfg p.2)) =
+        (dictOrder od (!cfg.insertionOrdered) (shapeOfKVs cfg (!cfg.insertionOrdered) kvs)).map
+          fun p => (p.1, p.2.spec cfg.noneIsLeaf cfg.ns) := by
+    intro od kvs
+    rw [shapeOfKVs_eq, ← dictOrder_mapVals od _ (fun (c : STree) => c.spec cfg.noneIsLeaf cfg.ns), List.map_map]; rfl
+  have hfst : ∀ (l : List (Key × STree)),
+      (l.map fun p => (p.1, p.2.spec cfg.noneIsLeaf cfg.ns)).map (·.1) = l.map (·.1) := by
+    intro l; simp [List.map_map, Function.comp_def]
+  have hsnd : ∀ (l : List (Key × STree)),
+      (l.map fun p => (p.1, p.2.spec cfg.noneIsLeaf cfg.ns)).map (·.2) =
+        (l.map (·.2)).map fun (c : STree) => c.spec cfg.noneIsLeaf cfg.ns := by
+    intro l; simp [List.map_map, Function.comp_def]
+  have hkeys : ∀ (kvs : List (Key × PyObj)), (kvs.map fun p => (p.1, specOf cfg p.2)).map (·.1) = kvs.map (·.1) := by
+    intro kvs; simp [List.map_map, Function.comp_def]
+  cases t with
+  | leaf a b => simp [PyObj.plainNode] at hpl
+  | none => simp [PyObj.plainNode] at hpl
+  | user c m q xs => simp [PyObj.plainNode] at hpl
+  | tuple xs =>
+    refine ⟨_, ⟨_, by first | (simp only [shapeOf]; done) | (simp only [shapeOf]; rfl)⟩, ?_⟩
+    simp only [collOf, makeFromCollection, hseq, shapeOf]
+    exact plain_shape cfg _ .tuple .none Option.none (by simp)
+  | list xs =>
+    refine ⟨_, ⟨_, by first | (simp only [shapeOf]; done) | (simp only [shapeOf]; rfl)⟩, ?_⟩
+    simp only [collOf, makeFromCollection, hseq, shapeOf]
+    exact plain_shape cfg _ .list .none Option.none (by simp)
+  | deque m xs =>
+    refine ⟨_, ⟨_, by first | (simp only [shapeOf]; done) | (simp only [shapeOf]; rfl)⟩, ?_⟩
+    simp only [collOf, makeFromCollection, hseq, shapeOf]
+    exact plain_shape cfg _ .deque (.maxlen m) Option.none (by simp)
+  | dict kvs =>
+    refine ⟨_, ⟨_, by first | (simp only [shapeOf]; done) | (simp only [shapeOf]; rfl)⟩, ?_⟩
+    simp only [collOf, makeFromCollection, hkv, hfst, hsnd, hkeys, shapeOf]
+    exact plain_shape cfg _ .dict _ _ (by simp)
+  | odict kvs =>
+    refine ⟨_, ⟨_, by first | (simp only [shapeOf]; done) | (simp only [shapeOf]; rfl)⟩, ?_⟩
+    have := hkv true kvs
+    simp only [dictOrder, Bool.not_true, Bool.false_and, Bool.false_eq_true, if_false] at this
+    simp only [collOf, makeFromCollection, this, hfst, hsnd, shapeOf]
+    exact plain_shape cfg _ .ordereddict _ _ (by simp)
+  | ddict f kvs =>
+    refine ⟨_, ⟨_, by first | (simp only [shapeOf]; done) | (simp only [shapeOf]; rfl)⟩, ?_⟩
+    simp only [collOf, makeFromCollection, hkv, hfst, hsnd, hkeys, shapeOf]
+    exact plain_shape cfg _ .defaultdict _ _ (by simp)
+  | ntuple cls xs =>
+    simp only [PyObj.plainNode, Option.isNone_iff_eq_none] at hpl
+    refine ⟨_, ⟨_, by first | (simp only [shapeOf, hpl]; done) | (simp only [shapeOf, hpl]; rfl)⟩, ?_⟩
+    simp only [collOf, makeFromCollection, hseq, shapeOf, hpl]
+    exact plain_shape cfg _ .namedtuple _ _ (by simp)
+  | sseq cls xs =>
+    simp only [PyObj.plainNode, Option.isNone_iff_eq_none] at hpl
+    refine ⟨_, ⟨_, by first | (simp only [shapeOf, hpl]; done) | (simp only [shapeOf, hpl]; rfl)⟩, ?_⟩
+    simp only [collOf, makeFromCollection, hseq, shapeOf, hpl]
+    exact plain_shape cfg _ .structseq _ _ (by simp)
+
+
+/-- hence, for every tree whose root the engine handles itself: the constructor over the children's treespecs
+and `tree_structure` of the tree return the same node array -/
+theorem C08_constructor_matches_flatten (cfg : Cfg) (hp : cfg.pred = Option.none) (t : PyObj) (ht : t.wf = true)
+    (hpl : t.plainNode cfg = true) (ls : List PyObj) (sp : Spec) (h : flatten cfg t = .ok (ls, sp)) :
+    ∃ sp', makeFromCollection cfg (collOf cfg t) = .ok sp' ∧ sp'.nodes = sp.nodes ∧
+      sp'.noneIsLeaf = sp.noneIsLeaf := by
+  obtain ⟨e, _⟩ := flatten_shapeOf cfg hp t ht ls sp h
+  obtain ⟨cs, _, hm⟩ := C08_constructor_is_structure cfg t hpl
+  refine ⟨_, hm, ?_, ?_⟩
+  · rw [e]; rfl
+  · rw [e]; rfl
+
+/-- non-vacuity: `treespec_dict({"b": *, "a": (*, *)})` has its keys sorted, like the structure of the tree -/
+example :
+    let cfg : Cfg := {}
+    let t : PyObj := .dict [(.str "b", .leaf 0 1), (.str "a", .tuple [.leaf 0 2, .leaf 0 3])]
+    t.plainNode cfg = true ∧
+    (match makeFromCollection cfg (collOf cfg t), flatten cfg t with
+      | .ok sp', .ok (_, sp) => sp'.nodes == sp.nodes && sp'.nodes.length == 5
+      | _, _ => false) = true := by decide
+
+
 end Optree
